@@ -222,14 +222,20 @@ size_t carquet_bitunpack_32(const uint8_t* input, size_t count,
         bytes_consumed += bit_width;  /* 8 values * bit_width bits = bit_width bytes */
     }
 
-    /* Handle remaining values */
+    /* Handle remaining values: the input only holds the bytes of the values
+     * that exist, not a whole 8-value group, so unpack from a padded copy */
     if (i < count) {
         uint32_t temp[8];
-        carquet_bitunpack8_32(input + bytes_consumed, bit_width, temp);
-        for (size_t j = 0; j < count - i; j++) {
-            values[i + j] = temp[j];
+        uint8_t padded[32] = {0};
+        size_t tail_bytes = carquet_packed_size(count - i, bit_width);
+        if (bit_width <= 32) {
+            memcpy(padded, input + bytes_consumed, tail_bytes);
+            carquet_bitunpack8_32(padded, bit_width, temp);
+            for (size_t j = 0; j < count - i; j++) {
+                values[i + j] = temp[j];
+            }
         }
-        bytes_consumed += carquet_packed_size(count - i, bit_width);
+        bytes_consumed += tail_bytes;
     }
 
     return bytes_consumed;
@@ -305,8 +311,14 @@ size_t carquet_bitpack_32(const uint32_t* values, size_t count,
         for (size_t j = 0; j < count - i; j++) {
             temp[j] = values[i + j];
         }
+        /* Write only the bytes the remaining values occupy (the size
+         * carquet_packed_size() promises), not a whole padded group */
         size_t remaining_bytes = carquet_packed_size(count - i, bit_width);
-        carquet_bitpack8_32(temp, bit_width, output + bytes_written);
+        uint8_t group[32];
+        if (bit_width <= 32) {
+            carquet_bitpack8_32(temp, bit_width, group);
+            memcpy(output + bytes_written, group, remaining_bytes);
+        }
         bytes_written += remaining_bytes;
     }
 
